@@ -45,10 +45,10 @@ XU == UU \cup {0, 64, 69, 71, 74, 77, 79, 126, 195, 197, 255, 258, 65531, 65533,
 
 \* every mapping of up to K codes onto K glyphs x every duplicate-free id list over them
 KSmall == IF Deep THEN 3 ELSE 2
-Small ==
-  UNION {{P("small", "Unicode", 32, Asc(S), a, l, KSmall, 0, "before", t) :
-            a \in [1 .. Cardinality(S) -> 1 .. KSmall], l \in InjSeqs(KSmall), t \in Targets}
-         : S \in SubsetsUpTo(UU, KSmall)}
+InitSmall ==
+  \E S \in SubsetsUpTo(UU, KSmall) : \E a \in [1 .. Cardinality(S) -> 1 .. KSmall] :
+  \E l \in InjSeqs(KSmall) : \E t \in Targets :
+    par = P("small", "Unicode", 32, Asc(S), a, l, KSmall, 0, "before", t)
 
 \* the format 4 segment builder: runs, gaps of 0..3 and of 4 and more, the compact rule (four
 \* consecutive ids), non-consecutive ids, dropped glyphs; optionally one far code
@@ -57,65 +57,73 @@ Extras == IF Deep THEN {{}, {196}, {256, 257}, {65535}, {65534, 65535}, {65536},
                   ELSE {{}, {196}, {65534, 65535}, {65536}}
 Lists(k) == {Iota(k), Rev(Iota(k))} \cup {SwapAdj(Iota(k), j) : j \in 1 .. (k - 1)} \cup {Drop(Iota(k), j) : j \in 1 .. k}
 SegPads == IF Deep THEN {0, 253} ELSE {0}
-Segs ==
-  UNION {LET S == T \cup E  k == Cardinality(S) IN
-         {P("segs", "Unicode", 32, Asc(S), Iota(k), l, k, pd, "before", t) : l \in Lists(k), pd \in SegPads, t \in Targets}
-         \cup {P("segs", "Unicode", 32, Asc(S), [i \in 1 .. k |-> 1], <<1>>, 1, 0, "before", t) : t \in Targets}
-         : T \in {T \in SUBSET B7 : Cardinality(T) >= 3}, E \in Extras}
+InitSegs ==
+  \E T \in {T \in SUBSET B7 : Cardinality(T) >= 3} : \E E \in Extras : \E t \in Targets :
+    LET S == T \cup E  k == Cardinality(S) IN
+    \/ \E l \in Lists(k) : \E pd \in SegPads : par = P("segs", "Unicode", 32, Asc(S), Iota(k), l, k, pd, "before", t)
+    \/ par = P("segs", "Unicode", 32, Asc(S), [i \in 1 .. k |-> 1], <<1>>, 1, 0, "before", t)
+    \* two neighbouring codes on one glyph (ids g, g+1, g+1 after a run)
+    \/ \E j \in 1 .. (k - 1) :
+         par = P("segs", "Unicode", 32, Asc(S), [i \in 1 .. k |-> IF i = j + 1 THEN j ELSE i], Iota(k), k, 0, "before", t)
 
 \* the 255/256 threshold of format 0 and the u16 range
 PadCodes == {65, 66, 196, 256, 65536}
 Pads == IF Deep THEN {0, 252, 253, 254, 255, 300} ELSE {0, 253, 254, 300}
-Pad ==
-  UNION {LET k == Cardinality(S) IN
-         {P("pad", "Unicode", 32, Asc(S), Iota(k), l, k, pd, pp, t) :
-            l \in {Iota(k), Rev(Iota(k))}, pd \in Pads, pp \in {"before", "after"}, t \in Targets}
-         : S \in SubsetsUpTo(PadCodes, 3) \ {{}}}
-Huge ==
-  IF ~Deep THEN {}
-  ELSE UNION {LET k == Cardinality(S) IN
-              {P("huge", "Unicode", 32, Asc(S), Iota(k), Rev(Iota(k)), k, 65530, "before", t) : t \in Targets}
-              : S \in {{65}, {65, 66}, {196, 256}, {65, 65535}, {65, 65536}, {65536, 65537}}}
+InitPad ==
+  \E S \in SubsetsUpTo(PadCodes, 3) \ {{}} : \E pd \in Pads : \E pp \in {"before", "after"} : \E t \in Targets :
+    LET k == Cardinality(S) IN
+    \E l \in {Iota(k), Rev(Iota(k))} : par = P("pad", "Unicode", 32, Asc(S), Iota(k), l, k, pd, pp, t)
+InitHuge ==
+  /\ Deep
+  /\ \E S \in {{65}, {65, 66}, {196, 256}, {65, 65535}, {65, 65536}, {65536, 65537}} : \E t \in Targets :
+       LET k == Cardinality(S) IN par = P("huge", "Unicode", 32, Asc(S), Iota(k), Rev(Iota(k)), k, 65530, "before", t)
 
 ---------------------------------------------------------------------------
-\* Mac Roman source (format 0, record 1/0): codes; 0x80 is A dieresis
+\* Mac Roman source (format 0, record 1/0): codes; 0x80 is A dieresis.  The source glyph ids stay
+\* below 256 (padding "front"), the new ids cross 255.
 MU == {65, 66, 67, 68, 72, 73, 78, 128}
 XM == {MacToUni(b) : b \in MU \cup {64, 69, 129, 255}} \cup {256, 65536}
-Mac ==
-  UNION {LET k == Cardinality(S) IN
-         {P("mac", "AppleRoman", 32, Asc(S), Iota(k), l, k, pd, "before", t) :
-            l \in {Iota(k), Rev(Iota(k))} \cup (IF k > 0 THEN {Drop(Iota(k), 1)} ELSE {}),
-            pd \in (IF Deep THEN {0, 253} ELSE {0}), t \in Targets}
-         : S \in SubsetsUpTo(MU, 3)}
+InitMac ==
+  \E S \in SubsetsUpTo(MU, 3) : \E pd \in (IF Deep THEN {0, 253} ELSE {0}) : \E t \in Targets :
+    LET k == Cardinality(S) IN
+    \E l \in {Iota(k), Rev(Iota(k))} \cup (IF k > 0 THEN {Drop(Iota(k), 1)} ELSE {}) :
+      par = P("mac", "AppleRoman", 32, Asc(S), Iota(k), l, k, pd, "front", t)   \* format 0 holds glyphs <= 255
 
 ---------------------------------------------------------------------------
 \* Windows Symbol source (format 4, record 3/0): codes in the PUA block F000..F0FF, below 0x100
-\* and outside both; usFirstCharIndex 0xF020 (the usual) or 0x20
+\* and outside both; usFirstCharIndex 0xF020 (the usual), 0x20, or 0xF100 (above the codes: inconsistent OS/2)
 SU == {61505, 61506, 61507, 61508, 61512, 61513, 61518, 61636, 65, 66, 61696}
 XS == {SYM + s : s \in SU \cup {61504, 61509, 64, 67, 61695, 61697, 65535}}
       \cup {65, 66, 67, 68, 72, 73, 78, 196, 64, 197, 61505, 61506, 61636, 256}
-Sym ==
-  UNION {LET k == Cardinality(S) IN
-         {P("sym", "Symbol", f, Asc(S), Iota(k), l, k, 0, "before", t) :
-            l \in {Iota(k), Rev(Iota(k))} \cup (IF k > 0 THEN {Drop(Iota(k), 1)} ELSE {}),
-            f \in {61472, 32}, t \in Targets}
-         : S \in SubsetsUpTo(SU, IF Deep THEN 3 ELSE 2)}
-
-Params == Small \cup Segs \cup Pad \cup Huge \cup Mac \cup Sym
+InitSym ==
+  \E S \in SubsetsUpTo(SU, IF Deep THEN 3 ELSE 2) : \E f \in {61472, 32, 61696} : \E t \in Targets :
+    LET k == Cardinality(S) IN
+    \E l \in {Iota(k), Rev(Iota(k))} \cup (IF k > 0 THEN {Drop(Iota(k), 1)} ELSE {}) :
+      par = P("sym", "Symbol", f, Asc(S), Iota(k), l, k, 0, "before", t)
 
 ---------------------------------------------------------------------------
-\* concretisation: slot j is glyph pad + j ("before") or j ("after")
+\* concretisation: slot j is glyph pad + j ("before") or j ("after", "front"); the pad glyphs are
+\* listed before the slot glyphs ("before", "front") or after them ("after")
 GidOf(p, slot) == IF p.padpos = "before" THEN p.pad + slot ELSE slot
 CaseOf(p) ==
   [enc |-> p.enc, first |-> p.first, target |-> p.target,
    sm  |-> [i \in 1 .. Len(p.codes) |-> <<p.codes[i], GidOf(p, p.slots[i])>>],
-   ids |-> IF p.padpos = "before"
-           THEN <<0>> \o Iota(p.pad) \o [i \in 1 .. Len(p.list) |-> p.pad + p.list[i]]
-           ELSE <<0>> \o p.list \o [i \in 1 .. p.pad |-> p.G + i]]
+   ids |-> CASE p.padpos = "before" -> <<0>> \o Iota(p.pad) \o [i \in 1 .. Len(p.list) |-> p.pad + p.list[i]]
+             [] p.padpos = "after"  -> <<0>> \o p.list \o [i \in 1 .. p.pad |-> p.G + i]
+             [] p.padpos = "front"  -> <<0>> \o [i \in 1 .. p.pad |-> p.G + i] \o p.list]
 NumGlyphs(p) == 1 + p.G + p.pad
 ProbesOf(p) == CASE p.enc = "Unicode" -> XU [] p.enc = "AppleRoman" -> XM [] p.enc = "Symbol" -> XS
+ProbeSetName(p) == CASE p.enc = "Unicode" -> "XU" [] p.enc = "AppleRoman" -> "XM" [] p.enc = "Symbol" -> "XS"
 
-Init == par \in Params /\ done = FALSE
+\* printed once: the probe characters of each family (all: every probe; Unicode / AppleRoman /
+\* Symbol: the probes for which the Font view is judged when the output record has that encoding)
+ProbeJson(X) == [all |-> Asc(X),
+                 Unicode    |-> Asc({x \in X : FontViewApplies("Unicode", x)}),
+                 AppleRoman |-> Asc({x \in X : FontViewApplies("AppleRoman", x)}),
+                 Symbol     |-> Asc({x \in X : FontViewApplies("Symbol", x)})]
+ASSUME PrintT(<<"PROBES", ToJson([XU |-> ProbeJson(XU), XM |-> ProbeJson(XM), XS |-> ProbeJson(XS), sym |-> SYM])>>)
+
+Init == (InitSmall \/ InitSegs \/ InitPad \/ InitHuge \/ InitMac \/ InitSym) /\ done = FALSE
 Next == done = FALSE /\ done' = TRUE /\ UNCHANGED par
 Spec == Init /\ [][Next]_vars
 
@@ -126,7 +134,8 @@ DesignOK ==
     /\ \A x \in X : Cardinality(Expected(c, x)) = 1        \* no optional character among the probes
     /\ WrittenWellFormed(Subset(c))
     /\ ~Failed(Subset(c))
-    /\ IF FixFmt0 THEN SubsetCmapOK(c, X) ELSE (SubsetCmapOK(c, X) <=> ~Fmt0Overflow(c))
+    /\ SubsetCmapOK(c, X) \/ (~FixFmt0 /\ Fmt0Overflow(c)) \/ (~FixSymInv /\ SymInvDiverges(c))
+    /\ (~FixFmt0 /\ Fmt0Overflow(c)) => ~SubsetCmapOK(c, X)
 
 \* the predicted record, flattened for JSON
 PredOf(rec) ==
@@ -142,17 +151,22 @@ PredOf(rec) ==
             THEN LET N == Asc({b \in 0 .. 255 : rec.tab.gia[b + 1] # 0}) IN [i \in 1 .. Len(N) |-> <<N[i], rec.tab.gia[N[i] + 1]>>]
             ELSE <<>>]
 
+NonZero(s) == SelectSeq(s, LAMBDA e : e[2] # 0)
 CaseJson(p) ==
   LET c   == CaseOf(p)
       rec == Subset(c)
       X   == Asc(ProbesOf(p))
+      xe  == NonZero([i \in 1 .. Len(X) |-> <<X[i], CHOOSE v \in Expected(c, X[i]) : TRUE>>])
+      xp  == NonZero([i \in 1 .. Len(X) |-> <<X[i], OutMap(rec, X[i])>>])
   IN [fam |-> p.fam, enc |-> p.enc, first |-> p.first, target |-> p.target, n |-> NumGlyphs(p),
       pad |-> p.pad, sm |-> c.sm, ids |-> c.ids,
-      x  |-> [i \in 1 .. Len(X) |-> <<X[i], CHOOSE v \in Expected(c, X[i]) : TRUE>>],
-      pm |-> [i \in 1 .. Len(X) |-> <<X[i], OutMap(rec, X[i])>>],
+      xs |-> ProbeSetName(p),
+      x  |-> xe,                                  \* non-zero expectations; every other probe: 0
+      same |-> xe = xp,                           \* the writer model predicts exactly x
+      pm |-> IF xe = xp THEN <<>> ELSE xp,        \* otherwise: the model's non-zero predictions
       pred |-> PredOf(rec),
       shape |-> Shape(c),
-      dev |-> Fmt0Overflow(c)]
+      dev |-> Fmt0Overflow(c) \/ SymInvDiverges(c)]
 
 EmitCase == done => PrintT(<<"CASE", ToJson(CaseJson(par))>>)
 =============================================================================
